@@ -105,15 +105,19 @@ def check(case, mode):
     st_, c = guard(parse, text, what="parse", **kw)
     if st_ == "err":
         raise Skip()
+    frozen = gen.frozen_default_risk(prog, env)
     try:
         exc = extract.Extractor(c, env)
-        if not same_meaning(exc.meaning(), m_plain):
-            raise Skip()
+        m_c = exc.meaning()
         d_c, d_ref = exc.declarations(), ref.declarations()
-        if d_c["reg"] != d_ref["reg"] or [tuple(x) for x in d_c["maps"]] != [tuple(x) for x in d_ref["maps"]]:
+    except extract.ExtractError as e:
+        if frozen:
+            raise Skip()
+        raise Violation("parsed-circuit-unresolvable-under-override", f"{e}\n--- overrides {env}\n--- program:\n{text}")
+    if not same_meaning(m_c, m_plain) or d_c["reg"] != d_ref["reg"] or [tuple(x) for x in d_c["maps"]] != [tuple(x) for x in d_ref["maps"]]:
+        if frozen:
             raise Skip()  # text model and circuit differ under the override (see C05 note)
-    except extract.ExtractError:
-        raise Skip()
+        raise Violation("parsed-circuit-disagrees-with-text-under-override", f"circuit {show(m_c)} {d_c}\nreference {show(m_plain)} {d_ref}\n--- overrides {env}\n--- program:\n{text}")
     cur = c
     done = set()
     applied = []
